@@ -29,8 +29,8 @@ def dominating_conditions(cfg, bid, selective=False):
                 # successor of the last operand without that operand having been evaluated)
                 if not (B.id == bid or cfg.dominates(B.id, bid, idom)):
                     continue
-                if selective and other is not None and B.id in cfg.reachable_from(other):
-                    continue  # a loop exit: the loop always gets there
+                if selective and any(cfg.dominates(B.id, q, idom) for q in (B.preds or []) if q != B.id):
+                    continue  # a loop header (target of a back edge): neither entering nor leaving the loop selects anything
                 out.append((F.src(F.strip(B.cond)), truth))
     return out
 
